@@ -288,6 +288,11 @@ func (r *e2run) apply(op E2Op) {
 		}
 	case "tick":
 		w.CronTick()
+	case "requeueCron": // duplicate / out-of-order re-delivery of an old (JobConfig, schedule time) key
+		if w.Alive {
+			w.QCron.Add(op.A)
+			r.label("cron-key-redelivered")
+		}
 	case "advance":
 		w.Advance(time.Duration(op.D) * time.Millisecond)
 	case "kubelet": // A=pod key, B=action
@@ -395,6 +400,7 @@ type e2Profile struct {
 	foreignPods bool
 	lag         bool // generate explicit deliver/step ops (otherwise mostly settle)
 	steps       int
+	maxJobs     int
 	weights     map[string]int
 }
 
@@ -446,9 +452,13 @@ type livePod struct {
 // enabled; the concrete arguments are recorded, the run re-executes them on a
 // fresh world with the monitors on.
 func genE2Ops(t *rapid.T, tr *E2Trace, p e2Profile) {
-	r := newE2Run(tr, false)
+	genOpsOn(t, newE2Run(tr, false), tr, p, 0)
+}
+
+// genOpsOn continues generating on an existing live run; the drawn ops are
+// appended to tr and applied to r.
+func genOpsOn(t *rapid.T, r *e2run, tr *E2Trace, p e2Profile, _ int) {
 	w := r.w
-	nextJob := 0
 	for step := 0; step < p.steps; step++ {
 		type cand struct {
 			w  int
@@ -467,9 +477,13 @@ func genE2Ops(t *rapid.T, tr *E2Trace, p e2Profile) {
 		jobs := w.API.Jobs()
 		pods := w.API.Pods()
 		jcs := w.API.JobConfigs()
-		if len(jobs) < 8 {
+		maxJobs := p.maxJobs
+		if maxJobs == 0 {
+			maxJobs = 8
+		}
+		if r.nJobs < maxJobs+4 && len(jobs) < maxJobs {
 			add("createJob", 6, func() E2Op {
-				op := E2Op{K: "createJob", N: nextJob}
+				op := E2Op{K: "createJob", N: r.nJobs}
 				if len(jcs) > 0 && rapid.IntRange(0, 4).Draw(t, "owned") != 0 {
 					op.A = rapid.SampledFrom(jcs).Draw(t, "jc").Name
 					op.B = rapid.SampledFrom([]string{"", "", "Allow", "Forbid", "Enqueue"}).Draw(t, "jobpolicy")
@@ -477,7 +491,7 @@ func genE2Ops(t *rapid.T, tr *E2Trace, p e2Profile) {
 				if rapid.IntRange(0, 2).Draw(t, "startAfter?") == 0 {
 					op.D = int64(rapid.SampledFrom([]int{-5, 1, 2, 10, 60, 300}).Draw(t, "startAfter"))
 				}
-				nextJob++
+				r.nJobs++
 				return op
 			})
 		}
@@ -534,6 +548,12 @@ func genE2Ops(t *rapid.T, tr *E2Trace, p e2Profile) {
 		})
 		if p.cron {
 			add("tick", 6, func() E2Op { return E2Op{K: "tick"} })
+			if len(w.Requests) > 0 {
+				add("requeueCron", 2, func() E2Op {
+					q := w.Requests[rapid.IntRange(0, len(w.Requests)-1).Draw(t, "oldreq")]
+					return E2Op{K: "requeueCron", A: fmt.Sprintf("%s.%d", q.Key, q.Time.Unix())}
+				})
+			}
 		}
 		add("settle", 10, func() E2Op { return E2Op{K: "settle"} })
 		if p.lag {
